@@ -37,7 +37,7 @@ def gen_event_script(rng, case, tag, depth, next_tag, allow_nested=True, late_ok
     elif special < 0.45 and allow_nested and depth < 2:
         # (a trigger awaited from a nested state's own enter/exit callback re-enters the hierarchical engine in the
         #  middle of its scope handling: single-task re-entrancy, C02/C05 territory, not a schedule matter)
-        slot = rng.choice(asyncctl.FLAT_TRANSITION_SLOTS)
+        slot = rng.choice([x for x in asyncctl.FLAT_TRANSITION_SLOTS if x not in case.get('sparse', [])] or ['prepare'])
         key = '%d:%s:2' % (tag, slot)
         if not any(op[0] == 'ret' for op in sc.get(key, [])):
             nt = next_tag[0]
@@ -53,6 +53,22 @@ def gen_event_script(rng, case, tag, depth, next_tag, allow_nested=True, late_ok
         if slot != 'conditions':
             sc.setdefault('%d:%s:0' % (tag, slot), []).append(['remove', rng.randrange(case['n_models'] - len(case.get('late', [])))])
     # the `ret` of a condition must stay the last op before a raise/trig is not required; keep order as built
+
+
+def gen_shape(rng, case):
+    """which callback slots are empty, and whether the states carry armed AsyncTimeout timers: with few callbacks the
+    library's own await points (state exit/enter, timer handling, the queue) are where an event is suspended"""
+    case['timeout'] = rng.random() < 0.3
+    case['sparse'] = []
+    r = rng.random()
+    slots = asyncctl.TRANSITION_SLOTS + ['finalize_event']
+    if r < 0.12:
+        case['sparse'] = list(slots)
+    elif r < 0.22:
+        keep = rng.choice(['on_exit', 'on_enter', 'before', 'after', 'finalize_event'])
+        case['sparse'] = [x for x in slots if x != keep]
+    elif r < 0.4:
+        case['sparse'] = [x for x in slots if rng.random() < 0.5]
 
 
 def gen_case(rng, big=False, force=None):
@@ -75,6 +91,7 @@ def gen_case(rng, big=False, force=None):
         case['triggers'].append([rng.randrange(early), rng.choice(EVENTS_HSM if case['hsm'] else EVENTS_FLAT)])
         if case['queued'] == 0 and rng.random() < 0.12:
             case['protected'].append(tag)
+    gen_shape(rng, case)
     # callback flavours of the recorders with index 1 / 2 (coroutine function | plain -> Task | Future | __await__)
     case['kinds'] = {'1': rng.choice([0, 0, 1, 2, 3]), '2': rng.choice([0, 0, 1, 2, 3])}
     next_tag = [n]
@@ -191,6 +208,7 @@ def note_stats(st, case, run):
     inc('attach', case.get('attach', 'ctor') + ('+late' if case.get('late') else ''))
     inc('top_level_triggers', str(len(case['triggers'])))
     inc('callback_kinds', '%s/%s' % (case.get('kinds', {}).get('1', 0), case.get('kinds', {}).get('2', 0)))
+    inc('shape', ('timeout+' if case.get('timeout') else '') + ('bare' if len(case.get('sparse', [])) >= 12 else 'sparse' if case.get('sparse') else 'full'))
     inc('dispatch', 'with' if any(t[0] < 0 for t in case['triggers']) else 'without')
     inc('arrival', 'delayed' if any(case.get('delays', [])) else 'together')
     inc('quiescence_points', str(min(run.nquiet, 8)))
@@ -338,6 +356,50 @@ def sweep_chunk(seed, idx, n_programs, max_delay):
     return ex
 
 
+def pair_chunk(seed, idx, n_programs):
+    """back to back: after a first transition has completed (so that timers are armed, states entered), two triggers on
+    one model start 0 … 8 loop trips apart, in both orders, on machines with few or no callbacks"""
+    rng = random.Random('C08/pair/%d/%d' % (seed, idx))
+    ex = Exploration()
+    for _ in range(n_programs):
+        case = {'hsm': rng.random() < 0.4, 'queued': rng.choice([0, 0, 0, 2]), 'on_exc': rng.random() < 0.2, 'ignore': False,
+                'n_models': rng.choice([1, 2]), 'protected': [], 'triggers': [], 'script': {}, 'schedule': [],
+                'attach': 'ctor', 'late': [], 'delays': [], 'kinds': {'1': rng.choice([0, 0, 1, 3]), '2': 0}}
+        gen_shape(rng, case)
+        if rng.random() < 0.6:
+            case['timeout'] = True
+        if rng.random() < 0.5 and len(case['sparse']) < 6:
+            slots = asyncctl.TRANSITION_SLOTS + ['finalize_event']
+            keep = rng.choice(['on_exit', 'on_enter', 'finalize_event', None])
+            case['sparse'] = [x for x in slots if x != keep]
+        evs = EVENTS_HSM if case['hsm'] else EVENTS_FLAT
+        case['triggers'] = [[0, 'go'], [0, rng.choice(evs)], [0, rng.choice(evs)]]
+        for tag in (1, 2):
+            if rng.random() < 0.5:
+                live = [x for x in slots_of(case) + ['finalize_event'] if x not in case['sparse']]
+                if live:
+                    case['script']['%d:%s:1' % (tag, rng.choice(live))] = [['susp']]
+        (r0, _fs0), = evaluate([dict(case, triggers=case['triggers'][:1], script={})])
+        t0 = r0.trips + 1
+        cases = []
+        for k in range(0, 9):
+            cases.append(dict(case, delays=[0, t0, t0 + k]))
+            if k:
+                cases.append(dict(case, delays=[0, t0 + k, t0]))
+        for c in cases:
+            for cc, r, fs in all_schedules(c, 12):
+                ex.evaluations += 1
+                ex.traces_validated += 1
+                note_stats(ex.stats, cc, r)
+                if nontrivial(cc, r):
+                    ex.nontrivial.add(fingerprint(cc))
+                ex.failures += fs
+        d = ex.stats.setdefault('back_to_back', {})
+        d['programs'] = d.get('programs', 0) + 1
+        d['offsets_tried'] = d.get('offsets_tried', 0) + len(cases)
+    return ex
+
+
 # -------------------------------------------------------------------------------------------------
 # shrinking
 # -------------------------------------------------------------------------------------------------
@@ -383,6 +445,10 @@ def shrink_steps(case):
     if case['schedule']:
         c = copy.deepcopy(case)
         c['schedule'] = c['schedule'][:-1]
+        yield c
+    if case.get('timeout'):
+        c = copy.deepcopy(case)
+        c['timeout'] = False
         yield c
     for k in ('1', '2'):
         if case.get('kinds', {}).get(k, 0):
@@ -446,7 +512,10 @@ class C08(runner.Check):
             'length of the run on queued programs without suspension points); hierarchical machines with callbacks on nested '
             'states and child->parent transitions; callback flavours (coroutine function / plain function handing back a Task, a bare '
             'Future or an __await__ object); events started together through machine.dispatch (per-model root tasks gathered by the '
-            'library) next to individually awaited triggers; corpus/C08 first; queued="model" programs always have '
+            'library) next to individually awaited triggers; machine shapes: every slot with callbacks / some or all slots EMPTY (the library own '
+            'await points are then where events are suspended) / states with armed AsyncTimeout timers / final state with on_final '
+            'callbacks; a back-to-back stream (after a completed first transition two triggers on one model 0-8 loop trips apart, '
+            'both orders); corpus/C08 first; queued="model" programs always have '
             '2-3 models and a higher share of raising events; for each program ALL release orders are enumerated (DFS over the pending futures at every '
             'quiescence; capped per program, the cap and the number of completely enumerated programs are in '
             'distribution.programs); a case = program + release order; non-trivial = a task was actually cancelled, or a '
@@ -483,7 +552,7 @@ class C08(runner.Check):
 
     def budget(self, tier):
         # (chunks, programs per chunk, release orders per program)
-        return (32, 18, 50) if tier == 'quick' else (64, 120, 200)
+        return (32, 14, 50) if tier == 'quick' else (64, 120, 200)
 
     def explore(self, tier, seed):
         nch, per, cap = self.budget(tier)
@@ -496,6 +565,9 @@ class C08(runner.Check):
             ex.merge(part)
         nsw, psw, dmax = (32, 3, 70) if tier == 'quick' else (64, 12, 90)
         for part in runner.parallel(sweep_chunk, [(seed, i, psw, dmax) for i in range(nsw)]):
+            ex.merge(part)
+        npr, ppr = (32, 2) if tier == 'quick' else (64, 10)
+        for part in runner.parallel(pair_chunk, [(seed, i, ppr) for i in range(npr)]):
             ex.merge(part)
         done = set()
         for f in ex.failures:
